@@ -105,9 +105,9 @@ mod as_str {
 }
 
 /// deliberately NOT in ascending order: a JSON object sorts its keys, a schema keeps declaration order
-pub const FNAMES: [&str; 8] = ["m", "c", "x", "a", "k", "b", "z", "d"];
-pub const VNAMES: [&str; 8] = ["V0", "V1", "V2", "V3", "V4", "V5", "V6", "V7"];
-pub static FIELDS: [&[&str]; 9] = [
+pub const FNAMES: [&str; 16] = ["m", "c", "x", "a", "k", "b", "z", "d", "q", "e", "w", "f", "p", "g", "y", "h"];
+pub const VNAMES: [&str; 16] = ["V0", "V1", "V2", "V3", "V4", "V5", "V6", "V7", "V8", "V9", "V10", "V11", "V12", "V13", "V14", "V15"];
+pub static FIELDS: [&[&str]; 17] = [
     &[],
     &["m"],
     &["m", "c"],
@@ -117,8 +117,16 @@ pub static FIELDS: [&[&str]; 9] = [
     &["m", "c", "x", "a", "k", "b"],
     &["m", "c", "x", "a", "k", "b", "z"],
     &["m", "c", "x", "a", "k", "b", "z", "d"],
+    &["m", "c", "x", "a", "k", "b", "z", "d", "q"],
+    &["m", "c", "x", "a", "k", "b", "z", "d", "q", "e"],
+    &["m", "c", "x", "a", "k", "b", "z", "d", "q", "e", "w"],
+    &["m", "c", "x", "a", "k", "b", "z", "d", "q", "e", "w", "f"],
+    &["m", "c", "x", "a", "k", "b", "z", "d", "q", "e", "w", "f", "p"],
+    &["m", "c", "x", "a", "k", "b", "z", "d", "q", "e", "w", "f", "p", "g"],
+    &["m", "c", "x", "a", "k", "b", "z", "d", "q", "e", "w", "f", "p", "g", "y"],
+    &["m", "c", "x", "a", "k", "b", "z", "d", "q", "e", "w", "f", "p", "g", "y", "h"],
 ];
-pub static VARIANTS: [&[&str]; 9] = [
+pub static VARIANTS: [&[&str]; 17] = [
     &[],
     &["V0"],
     &["V0", "V1"],
@@ -128,6 +136,14 @@ pub static VARIANTS: [&[&str]; 9] = [
     &["V0", "V1", "V2", "V3", "V4", "V5"],
     &["V0", "V1", "V2", "V3", "V4", "V5", "V6"],
     &["V0", "V1", "V2", "V3", "V4", "V5", "V6", "V7"],
+    &["V0", "V1", "V2", "V3", "V4", "V5", "V6", "V7", "V8"],
+    &["V0", "V1", "V2", "V3", "V4", "V5", "V6", "V7", "V8", "V9"],
+    &["V0", "V1", "V2", "V3", "V4", "V5", "V6", "V7", "V8", "V9", "V10"],
+    &["V0", "V1", "V2", "V3", "V4", "V5", "V6", "V7", "V8", "V9", "V10", "V11"],
+    &["V0", "V1", "V2", "V3", "V4", "V5", "V6", "V7", "V8", "V9", "V10", "V11", "V12"],
+    &["V0", "V1", "V2", "V3", "V4", "V5", "V6", "V7", "V8", "V9", "V10", "V11", "V12", "V13"],
+    &["V0", "V1", "V2", "V3", "V4", "V5", "V6", "V7", "V8", "V9", "V10", "V11", "V12", "V13", "V14"],
+    &["V0", "V1", "V2", "V3", "V4", "V5", "V6", "V7", "V8", "V9", "V10", "V11", "V12", "V13", "V14", "V15"],
 ];
 
 impl Shape {
